@@ -5,3 +5,51 @@ _P["tolerances"]["model correspondence (lineinit, genpos)"] = "as in C01: 4 × t
 _P["level_text"] += (" GeodesicLine::GenPosition (reduced length, geodesic scales, area) is modelled in Lean (Model/GeodLine.lean) and executed against the "
                      "implementation on every direct segment; theorem line_lengths_agree: over ℝ, GenPosition (direct interface) and Geodesic::Lengths "
                      "(inverse interface) return the same s12, m12, M12, M21 on the same arc.")
+
+# ---- deepening round G01 ---------------------------------------------------------------------------------------------------------
+_P["rule"] = (
+    "direct segments on f = WGS84 (1/3), {0, ±1e-3, ±1/150, ±0.01, ±0.02, 0.5, −1} (7/10 of the rest), series with documented degradation {±0.05, ±0.1, "
+    "±0.2}, b/a ∈ {1/4, 4, 1/8, 8, 1/16, 16, 0.04, 25, 0.02, 50, 0.01, 100}; lat1 uniform in ±89 or {0, ±45, 89.9, −0, 1e-10}; azi1 uniform or {±90, "
+    "1e-10, 45, 135, 1e-4}; lon1 in [−180, 180] or [−720, 720]; distance and arc, within half a circuit or up to two circuits, arcs at and near "
+    "multiples of 180°. Every segment: m12, M12, M21, S12 requested through EVERY documented route of Geodesic, GeodesicExact and Geodesic(a,f,true) "
+    "— GenDirect with each single-output mask, REDUCEDLENGTH|GEODESICSCALE, ALL, ALL|LONG_UNROLL; the 6 Direct / 7 ArcDirect overloads; Line, "
+    "DirectLine / ArcDirectLine with the 6 Position / 7 ArcPosition overloads and GenPosition with each mask; the line constructor; GenDirectLine; "
+    "lines constructed with a single capability (e.g. GEODESICSCALE only, what CassiniSoldner does) — each compared with the oracle and with "
+    "GenDirect(ALL); every fourth segment through tools/GeodSolve −f, every fourth point pair through GeodSolve −i −f (with and without −E), run in-process. Point pairs (|f| ≤ 0.02, 0.5, −1): the 7 Inverse overloads and "
+    "GenInverse with each single-output mask against the full overload, InverseLine at its third point, reversal, addition rules at 37 % of the "
+    "segment, triangle sums, EllipsoidArea. Model correspondences: lineinit/genpos (series, |f| ≤ 0.2), xgeodconst/xlineinit/xgenpos (exact line, every "
+    "f), lengths. non-trivial = finite values compared with the oracle; distinct = distinct (op, leading argument bits)")
+_P["tolerances"].update({
+    "m12": "2 × the position tolerance of C01 (documented accuracy over the whole documented flattening range of each solver × size × path length)",
+    "M12, M21": "2·tol/ρmin + 8e-16 (1 + |M|), relative to max(1, |M|); ρmin = min(b²/a, a²/b), the smallest principal radius of curvature of the ellipsoid (the scales are derivatives of positions with respect to positions)",
+    "S12 vs oracle": "series 0.4 m² (|f| ≤ 1/100), 1.5 m² (≤ 1/50); exact 4 m² (b/a within 1.05), 60 m² (b/a ∈ [1/2, 2]) — × (a/a_WGS84)² × max(1, a12/180) × max(1, 0.25/|sin α0|); not judged beyond these flattenings (no documented figure) nor where the path comes within 3° of a pole",
+    "routes vs GenDirect(ALL)": "the same tolerances (on the unchanged tree the routes are bit-identical); S12: 1e-9 relative + the S12 tolerance (1 m² where none is documented)",
+    "GeodSolve −f": "every printed field within half a unit of its last printed digit (+ 2 ulp) of the library value",
+})
+_P["level_text"] += (
+    " Deepening: theorems about the expressions both lines evaluate for m12, M12, M21 (m12f, M12f, M21f of Model/GeodLineExact.lean; "
+    "genpos_scales_are_formulas / xgenpos_scales_are_formulas: the executed models of GeodesicLine::GenPosition and GeodesicLineExact::GenPosition "
+    "return exactly these), for unit (sin σ, cos σ), dn² = 1 + k² sin²σ, dn > 0 and an arbitrary additive J: scales_reversal (exchanging the end "
+    "points and negating J negates the signed m12/b and exchanges M12, M21), addition_rule_m (m13 = m12 M23 + m23 M21), addition_rule_M(_div) "
+    "(M13 = M12 M23 − (1 − M12 M21) m23/m12), scales_wronskian (M12 M21 − m12·dM12/ds2 = 1 with b·dM12/ds2 = dM12f); xgenpos_wronskian: the "
+    "Wronskian identity on the executed model of the exact line for every kernel; delta_sq (EllipticFunction::Delta is √(1 + k² sin²σ) in both "
+    "branches); dstIntegral_eq (DST::integral(sin x, cos x, F) = −Σ F_i/(2i+1) cos((2i+1)x) for every coefficient vector); c2_exact_eq_series (for 0 < f < 1 the _c2 of GeodesicExact, written with asinh √e′², and the _c2 of Geodesic, written with e·atanh e, are the same real number (a² + b² atanh(e)/e)/2, the closed form behind EllipsoidArea = 4π c2). The exact line's "
+    "GenPosition (m12, M12, M21, and S12 when the DST has ≤ 400 coefficients) is executed against the implementation for every flattening. Not "
+    "proved: that dM12f is the derivative of the coded M12 (derivation in a comment only); the DST coefficients and the I4 integrand of the exact "
+    "area (oracle only); accuracy figures.")
+_P["technique"] = "Lean 4 algebraic identities (reversal, addition rules, Wronskian of the coded expressions), table certificates, executable line models + quadrature-oracle correspondence over every documented route and mask"
+
+# the harness compiles $GV_REPO/tools/GeodSolve.cpp into itself (harness/C01_tool.hpp): include path of the usage stub, and a cache key
+# that depends on the tool's text (the generic key covers only the library and the harness sources)
+import hashlib as _hl, os as _os
+def _tools_digest():
+    h = _hl.sha256()
+    p = _os.path.join(_os.environ.get("GV_REPO", "/repo"), "tools", "GeodSolve.cpp")
+    try:
+        h.update(open(p, "rb").read())
+    except OSError:
+        h.update(b"missing")
+    return h.hexdigest()[:16]
+_verif = _os.path.dirname(_os.path.dirname(_os.path.dirname(_os.path.abspath(__file__))))
+_P["harnesses"] = [dict(name="C03", procs_quick=4, procs_thorough=16,
+                        extra=["-I" + _os.path.join(_verif, "harness", "C01_tools"), "-DGV_TOOLS_DIGEST=0x" + _tools_digest()])]
